@@ -810,3 +810,8 @@ from . import c02 as _c02
 for _g in _c02.GROUPS:
     if _g.name in ('System.dvect_dmag',):
         GROUPS.append(_g)
+# the generators build every slab with System.supersize and then edit the result in place: they rely on its contract (a NEW system, operand untouched)
+from . import c04 as _c04
+for _g in _c04.GROUPS:
+    if _g.name.startswith('supersize'):
+        GROUPS.append(_g)
